@@ -584,10 +584,14 @@ def so2_seam_rounding(sp, a, b):
     return False
 
 
-def laws(sp, cl, ext, tr, res, count=None):
+def laws(sp, cl, ext, tr, res, count=None, scale=1.0):
     """all six laws on the implementation's outputs for one triple.  Returns a list of violations
-    (law, indices, defect, text)."""
+    (law, indices, defect, text).  `scale` multiplies every distance and the extent first (used when a
+    unit sub-space is judged by its contribution weight·distance to a compound)."""
     inb, D, E = res
+    if scale != 1.0:
+        D = {k: v * scale for k, v in D.items()}
+        ext = ext * scale if ext is not None else None
     out = []
     if not all(inb):
         return out
@@ -664,15 +668,14 @@ def cmp_line(a, b):
     return "diff"
 
 
-def attribute(ck, hbin, sp, tr, law):
-    """which unit sub-spaces (leaf spaces with their own distance function) violate `law` on the
-    corresponding slices of the triple; for SO(3) triangle defects also whether each stays within the
-    clamp bound 2·acos(1-1e-9).  Returns (culprit string, within_clamp_bound|None)."""
+def attribute(ck, hbin, sp, tr, law, idx):
+    """which unit sub-spaces (leaf spaces with a distance function of their own) violate `law` on the
+    corresponding slices of the triple, each judged by its contribution weight·distance to the compound
+    (same slack rule).  Returns [(unit kind, tags)]: tags narrow the finding class — SO(3) triangle:
+    `within_clamp_bound` (defect ≤ 2·acos(1-1e-9) per unit weight); Klein positivity: `glued_boundary`
+    (u-values 0 and π: the two states are the same point of the bottle); car-like positivity: `within_car_eps`."""
     us = units(sp)
-    if len(us) == 1 and us[0][0] == sp:
-        us = [(sp, 1.0, nvals(sp))]
-    culprits = []
-    within = None
+    out = []
     i = 0
     for usp, w, n in us:
         sub = tuple(s[i:i + n] for s in tr)
@@ -687,15 +690,20 @@ def attribute(ck, hbin, sp, tr, law):
         # every law is evaluated on the unit, whatever the unit itself claims (the compound claimed it)
         cl2 = dict(cl)
         cl2["metric"] = True
-        vs = [v for v in laws(usp, cl2, ext, sub, ts[0]) if v[0] == law]
-        if vs:
-            culprits.append(unit_kind(usp))
-            if law == "triangle" and usp[0] == "so3":
-                ok = vs[0][2] <= 2 * CLAMP_ANGLE + 1e-12
-                within = ok if within is None else (within and ok)
-    if not culprits:
-        return "compound", None
-    return "+".join(sorted(set(culprits))), within
+        scale = w if w > 0 else 1.0
+        vs = [v for v in laws(usp, cl2, ext, sub, ts[0], scale=scale) if v[0] == law]
+        if not vs:
+            continue
+        tags = {}
+        if law == "triangle" and usp[0] == "so3":
+            tags["within_clamp_bound"] = bool(vs[0][2] <= scale * (2 * CLAMP_ANGLE + 1e-12))
+        if law == "positive" and usp[0] == "klein":
+            a_, b_ = sub[vs[0][1][0]], sub[vs[0][1][1]]
+            tags["glued_boundary"] = bool(abs(abs(a_[0] - b_[0]) - PI) < 1e-12)
+        if law == "positive" and usp[0] in IMPL_ONLY:
+            tags.update(car_eps_class(usp, sub, law, vs[0][1]))
+        out.append((unit_kind(usp), tags))
+    return out
 
 
 def car_eps_class(sp, tr, law, idx):
@@ -716,17 +724,18 @@ def minimal_script(sp, tr):
 
 
 def classify(ck, hbin, sp, tr, v):
-    """one record per culprit unit kind (the match keys of KNOWN_FINDINGS.jsonl)"""
+    """one record per culprit unit (the match keys of KNOWN_FINDINGS.jsonl)"""
     law, idx, defect, text = v
-    culprit, within = attribute(ck, hbin, sp, tr, law)
+    cs = attribute(ck, hbin, sp, tr, law, idx)
+    if not cs:
+        return "compound", [{"engine": "spacedist", "law": law, "culprit": "compound"}]
     recs = []
-    for c in culprit.split("+"):
-        rec = {"engine": "spacedist", "law": law, "culprit": c}
-        if c == "so3" and within is not None:
-            rec["within_clamp_bound"] = bool(within)
-        rec.update(car_eps_class(sp, tr, law, idx))
-        recs.append(rec)
-    return culprit, recs
+    for kind, tags in cs:
+        rec = {"engine": "spacedist", "law": law, "culprit": kind}
+        rec.update(tags)
+        if rec not in recs:
+            recs.append(rec)
+    return "+".join(sorted(set(k for k, _ in cs))), recs
 
 
 def report_violation(ck, hbin, sp, tr, v, tag):
@@ -965,7 +974,7 @@ def run(ck):
     for name, sp, tr in corpus():
         jobs.append(([(sp, [tr])], "corpus"))
     r = ck.rng.fork("spaces")
-    nt_leaf, nt_cmp, n_cmp, nt_car = (36, 24, 70, 30) if quick else (300, 120, 600, 200)
+    nt_leaf, nt_cmp, n_cmp, nt_car = (72, 36, 120, 48) if quick else (300, 120, 600, 200)
     for i, sp in enumerate(shipped_spaces(r)):
         jobs.append(([(sp, make_triples(ck.rng.fork("leaf%d" % i), sp, nt_leaf, state))], "shipped"))
     batch = []
